@@ -25,7 +25,6 @@ import (
 	"fmt"
 	"hash/adler32"
 	"os"
-	"runtime/pprof"
 	"strings"
 	"time"
 
@@ -775,18 +774,10 @@ func sortStrings(s []string) {
 	}
 }
 
-var stopProf = func() {}
-
 func main() {
 	if len(os.Args) > 2 && os.Args[1] == "replay" {
 		replay(os.Args[2])
 		return
-	}
-	if f := os.Getenv("C16_PROF"); f != "" { // development aid
-		fh, _ := os.Create(f)
-		pprof.StartCPUProfile(fh)
-		defer pprof.StopCPUProfile()
-		stopProf = pprof.StopCPUProfile
 	}
 	r := ev.Start("C16", "exploration")
 	r.SetBudget(8*time.Minute, 45*time.Minute)
@@ -865,7 +856,6 @@ func main() {
 	}
 	r.Sample(map[string]any{"family": "ref-P1", "desc": "payload 00 61 ff 61 at level 5 with Flush after byte 2, as raw DEFLATE, zlib and zlib+FDICT, every limit"})
 	cuts := r.Counters["cut_calls"]
-	stopProf()
 	r.Finish(ev.Coverage{
 		Evaluations:        cuts,
 		DistinctNontrivial: r.Counters["nontrivial_cuts"],
